@@ -1,4 +1,135 @@
+(* C15 -- urlencoded parameters equal the reference split/decoding for any chunking.
+   This file contains only statements closed by `exact`, their assumptions, and examples. *)
 Require Import Htp.Model.Base Htp.Model.MUrlenc Htp.Proof.PUrlenc.
-Theorem C15_ud_nil : forall cfg fl st, ud_urldecode_from cfg fl st [] = ([], fl, st).
-Proof. exact ud_nil. Qed.
-Print Assumptions C15_ud_nil.
+Local Open Scope N_scope.
+
+(* The reference of the property text (PUrlenc.ue_ref):
+     ue_ref cfg s = map (fun p => let '(k, v) := ue_split_first '=' p in (ud_bytes cfg k, ud_bytes cfg v))
+                        (ue_pieces '&' s)
+   ue_pieces = split on '&' and drop only a final empty piece; ud_bytes = htp_urldecode_inplace_ex.
+   ue_run cfg chunks = htp_urlenp_create; htp_urlenp_parse_partial on every chunk; htp_urlenp_finalize; params. *)
+
+(* every decoder configuration, every byte string, every chunking (empty chunks, cuts inside %XX, ...) *)
+Theorem C15_chunking : forall cfg chunks, ue_run cfg chunks = ue_ref cfg (concat chunks).
+Proof. exact ue_chunking. Qed.
+Print Assumptions C15_chunking.
+
+(* the same with the decoder's side effects: tx->flags and tx->response_status_expected_number are those of
+   decoding name then value of every reference pair, in order *)
+Theorem C15_chunking_full : forall cfg chunks, ue_run_full cfg chunks = ue_ref_full cfg (concat chunks).
+Proof. exact ue_chunking_full. Qed.
+Print Assumptions C15_chunking_full.
+
+(* any two chunkings of the same string give the same parameters (and flags) *)
+Theorem C15_split_invariant : forall cfg c1 c2, concat c1 = concat c2 -> ue_run cfg c1 = ue_run cfg c2.
+Proof. exact ue_split_invariant. Qed.
+Print Assumptions C15_split_invariant.
+Theorem C15_split_invariant_full : forall cfg c1 c2, concat c1 = concat c2 -> ue_run_full cfg c1 = ue_run_full cfg c2.
+Proof. exact ue_split_invariant_full. Qed.
+
+(* any argument separator and either setting of decode_url_encoding; any freshly created parser *)
+Theorem C15_chunking_any_separator : forall cfg sep dec chunks,
+  ue_run_with cfg sep dec chunks = ue_ref_gen cfg sep dec 0 0%Z (concat chunks).
+Proof. exact ue_chunking_with. Qed.
+Theorem C15_run_state_ref : forall cfg s0 chunks, ue_fresh s0 ->
+  ue_obs (ue_run_state cfg s0 chunks) = ue_ref_gen cfg (ue_sep s0) (ue_decode s0) (ue_flags s0) (ue_status s0) (concat chunks).
+Proof. exact ue_run_state_ref. Qed.
+Print Assumptions C15_run_state_ref.
+
+(* the abstract scanner used in the proof computes exactly split-on-separator / drop-final-empty / split-at-first-'=' *)
+Theorem C15_reference_is_declarative : forall sep s,
+  afinal (fold_left (astep sep) s (mkA UeKey [] [] [])) = map (ue_split_first ue_EQ) (ue_pieces sep s).
+Proof. exact afinal_ref. Qed.
+
+(* htp_ch_urlencoded_callback_request_line: no parser for an absent or empty query, otherwise the reference pairs
+   tagged QUERY_STRING; body chunks: the reference pairs of the concatenation tagged BODY *)
+Theorem C15_query_params : forall cfg q fl st,
+  ue_tx_query cfg q fl st =
+  match q with
+  | None => ([], fl, st)
+  | Some [] => ([], fl, st)
+  | Some q =>
+      let '(ps, fl', st') := ue_ref_gen cfg c_ue_default_separator c_ue_default_decode fl st q in
+      (map (fun nv => (c_ue_SOURCE_QUERY_STRING, fst nv, snd nv)) ps, fl', st')
+  end.
+Proof. exact ue_tx_query_spec. Qed.
+Theorem C15_body_params : forall cfg chunks fl st,
+  ue_tx_body cfg chunks fl st =
+  let '(ps, fl', st') := ue_ref_gen cfg c_ue_default_separator c_ue_default_decode fl st (concat chunks) in
+  (map (fun nv => (c_ue_SOURCE_BODY, fst nv, snd nv)) ps, fl', st').
+Proof. exact ue_tx_body_spec. Qed.
+Theorem C15_tx_split_invariant : forall cfg q c1 c2, concat c1 = concat c2 -> ue_tx cfg q (Some c1) = ue_tx cfg q (Some c2).
+Proof. exact ue_tx_split_invariant. Qed.
+Print Assumptions C15_tx_split_invariant.
+
+(* ---- the decoder ---- *)
+
+(* the decoding loop terminates within its fuel: one pass per input byte at most *)
+Theorem C15_ud_fuel_sufficient : forall cfg len fuel fl st out rest,
+  (length rest < fuel)%nat -> ud_loop fuel cfg len fl st out rest <> None.
+Proof. exact ud_fuel_sufficient. Qed.
+
+(* decoded output never longer than the input (wpos <= len) *)
+Theorem C15_ud_length : forall cfg s, (length (ud_bytes cfg s) <= length s)%nat.
+Proof. exact ud_length. Qed.
+Print Assumptions C15_ud_length.
+
+(* the decoded bytes do not depend on the flags / status the caller passes in *)
+Theorem C15_ud_bytes_independent : forall cfg fl st s, fst (fst (ud_urldecode_from cfg fl st s)) = ud_bytes cfg s.
+Proof. exact ud_from_bytes. Qed.
+
+(* flags are only ever added *)
+Theorem C15_ud_flags_monotone : forall cfg fl st s, N.land fl (snd (fst (ud_urldecode_from cfg fl st s))) = fl.
+Proof. exact ud_flags_monotone. Qed.
+
+(* exactness of output, flags and expected status, proved on two fragments of the input language
+   (the full statement over all inputs -- a token-level characterisation of every flag -- is not proved) *)
+Theorem C15_ud_nopct_partial : forall cfg fl st s,
+  ud_nopct s = true ->
+  ud_urldecode_from cfg fl st s =
+  (map (ud_plus cfg) (if d_nul_raw_term cfg then ud_until_nul s else s),
+   (if ud_has_nul s then N.lor fl c_HTP_URLEN_RAW_NUL else fl),
+   (if ud_has_nul s then ud_unwanted st (d_nul_raw_unwanted cfg) else st)).
+Proof. exact ud_nopct_spec. Qed.
+Print Assumptions C15_ud_nopct_partial.
+
+Theorem C15_ud_wellformed_partial : forall cfg fl st s,
+  ud_wfb s = true -> ud_urldecode_from cfg fl st s = (ud_ref_decode (d_plusspace cfg) s, fl, st).
+Proof. exact ud_wellformed_spec. Qed.
+Print Assumptions C15_ud_wellformed_partial.
+
+(* ---- non-vacuity ---- *)
+Definition ex_cfg : dcfg := mk_dcfg false false false false true true 0 false false false 63 0 0 400 0 0 0 0.
+Definition ex_str (s : list nat) : bytes := map N.of_nat s.
+
+(* "a=1&&b=%41+c&=x&d" cut in the middle of %41 and with an empty chunk *)
+Example C15_example_chunked :
+  ue_run ex_cfg [ [97; 61; 49; 38; 38; 98; 61; 37; 52]; []; [49; 43; 99; 38; 61; 120; 38; 100] ]
+  = [ ([97], [49]); ([], []); ([98], [65; 32; 99]); ([], [120]); ([100], []) ].
+Proof. vm_compute. reflexivity. Qed.
+
+(* corner cases of the reference: "a&&b", "&", "=", "a=", "=b", "a=b=c", "a&", "" *)
+Example C15_example_corners :
+  map (ue_ref ex_cfg) [ [97; 38; 38; 98]; [38]; [61]; [97; 61]; [61; 98]; [97; 61; 98; 61; 99]; [97; 38]; [] ]
+  = [ [([97], []); ([], []); ([98], [])]; [([], [])]; [([], [])]; [([97], [])]; [([], [98])];
+      [([97], [98; 61; 99])]; [([97], [])]; [] ].
+Proof. vm_compute. reflexivity. Qed.
+
+(* flags and expected status accumulate over the pairs: "%zz=%u0041&b=%00" -> invalid encoding (400), overlong %u, encoded NUL *)
+Example C15_example_flags :
+  ue_run_full ex_cfg [ [37; 122; 122; 61; 37; 117; 48; 48; 52; 49; 38; 98; 61; 37; 48; 48] ]
+  = ([ ([37; 122; 122], [65]); ([98], [0]) ],
+     N.lor c_HTP_URLEN_INVALID_ENCODING (N.lor c_HTP_URLEN_OVERLONG_U c_HTP_URLEN_ENCODED_NUL), 400%Z).
+Proof. vm_compute. reflexivity. Qed.
+
+(* the premises of the two fragment theorems are satisfiable by non-trivial inputs *)
+Example C15_example_wf : ud_wfb [97; 37; 52; 49; 43; 37; 50; 54] = true
+  /\ ud_bytes ex_cfg [97; 37; 52; 49; 43; 37; 50; 54] = [97; 65; 32; 38].
+Proof. vm_compute. split; reflexivity. Qed.
+Example C15_example_nopct : ud_nopct [97; 0; 43; 98] = true
+  /\ ud_urldecode_ex ex_cfg [97; 0; 43; 98] = ([97; 0; 32; 98], c_HTP_URLEN_RAW_NUL, 0%Z).
+Proof. vm_compute. split; reflexivity. Qed.
+
+(* a fresh parser is fresh; the regenerated defaults are the ones the reference names *)
+Example C15_example_fresh : ue_fresh ue_init /\ c_ue_default_separator = 38 /\ c_ue_default_decode = true.
+Proof. repeat split. Qed.
